@@ -59,22 +59,18 @@ def check(ctx):
         ctx.check(ok, 'TBL', f"Tract.{meth}: value = getattr(self, att, '<att>: n/a')",
                   detail_bad=f"value expression is `{norm(val)}`", key=f"TBL|Tract.{meth}|getattr")
         gen = comp.generators[0]
-        ctx.check(len(comp.generators) == 1 and norm(gen.iter) == 'attributes' and not gen.ifs, 'TBL',
-                  f"Tract.{meth}: one entry per requested attribute, in order",
-                  detail_bad="iteration changed", key=f"TBL|Tract.{meth}|order")
+        ctx.shape(len(comp.generators) == 1 and norm(gen.iter) == 'attributes' and not gen.ifs, 'TBL',
+                  f"Tract.{meth}: one entry per requested attribute, in order")
         if isinstance(comp, ast.DictComp):
-            ctx.check(norm(comp.key) == 'att', 'TBL', 'Tract.to_dict keys are the attribute names',
-                      detail_bad=f"key is `{norm(comp.key)}`", key="TBL|Tract.to_dict|key")
+            ctx.shape(norm(comp.key) == 'att', 'TBL', 'Tract.to_dict keys are the attribute names')
         t = [norm(s) for s in fi.node.body]
-        ctx.check('attributes = clean_attributes(attributes)' in t, 'TBL', f"Tract.{meth} flattens/validates the names",
-                  detail_bad="clean_attributes call gone", key=f"TBL|Tract.{meth}|clean")
+        ctx.shape('attributes = clean_attributes(attributes)' in t, 'TBL', f"Tract.{meth} flattens/validates the names")
 
     tl = ctx.repo.cls('containers:TractList')
     for meth, inner in (('tracts_to_dict', 't.to_dict(attributes)'), ('tracts_to_list', 't.to_list(attributes)')):
         fi = tl.methods[meth]
         r = norm(fi.node.body[-1])
-        ctx.check(r == f"return [{inner} for t in self]", 'TBL', f"TractList.{meth}: one record per tract, in order",
-                  detail_bad=f"`{r}`", key=f"TBL|TractList.{meth}")
+        ctx.shape(r == f"return [{inner} for t in self]", 'TBL', f"TractList.{meth}: one record per tract, in order")
     for meth, inner in (('iter_to_dict', 'tract.to_dict(attributes)'), ('iter_to_list', 'tract.to_list(attributes)')):
         fi = tl.methods[meth]
         t = ' '.join(norm(s) for s in walk_local(fi.node) if isinstance(s, ast.stmt))
@@ -100,7 +96,8 @@ def _scrubbers(ctx):
     shapes = []
     for fi in scrubs:
         joins = list(_join_sites(fi))
-        ctx.floor(f"{fi.qualname} join sites", len(joins), 2)
+        if len(joins) < 2:
+            ctx.undecided('EXC', f"{fi.qualname} join sites", 'joins not recognised')
         tests = sorted(norm(n.test) for n in walk_local(fi.node) if isinstance(n, ast.If))
         shapes.append(tests)
         for j in joins:
@@ -133,50 +130,91 @@ def _scrubbers(ctx):
                       f"written as tuple reprs / the two writers disagree",
                       key=f"EXC|{fi.qualname}|list-join|flatten", where=common.loc(fi, j))
         t = ' '.join(norm(s) for s in walk_local(fi.node) if isinstance(s, ast.stmt))
-        ctx.check('scrubbed.append(elem)' in t and 'for elem in data' in t and 'return scrubbed' in t, 'SIB',
-                  f"{fi.qualname}: every cell is kept (converted or as is)", detail_bad="cells can be dropped",
-                  key=f"SIB|{fi.qualname}|keep")
-    ctx.check(shapes[0] == shapes[1] and 'isinstance(elem, dict)' in shapes[0]
+        ctx.shape('scrubbed.append(elem)' in t and 'for elem in data' in t and 'return scrubbed' in t, 'SIB',
+                  f"{fi.qualname}: every cell is kept (converted or as is)")
+    ctx.shape(shapes[0] == shapes[1] and 'isinstance(elem, dict)' in shapes[0]
               and 'isinstance(elem, (list, tuple))' in shapes[0], 'SIB',
-              'scrub_row / _scrub_row treat dict, list and tuple cells alike',
-              detail_bad=f"tracts_to_csv: {shapes[0]}; TractWriter: {shapes[1]}", key="SIB|scrub_row|types")
+              'scrub_row / _scrub_row treat dict, list and tuple cells alike')
+    fl0 = ctx.repo.func('utils:flatten')
+    tests = []
+    for c in walk_local(fl0.node):
+        if isinstance(c, ast.Call) and dotted(c.func) == 'isinstance' and len(c.args) == 2:
+            v = c.args[1]
+            if isinstance(v, ast.Name):
+                asg = [a for a in walk_local(fl0.node) if isinstance(a, ast.Assign) and norm(a.targets[0]) == v.id]
+                if len(asg) == 1:
+                    v = asg[0].value
+            names = {norm(e) for e in (v.elts if isinstance(v, ast.Tuple) else [v])}
+            tests.append((c, names))
+    covers = [t for t in tests if {'list', 'tuple'} <= t[1]]
+    partial = [t for t in tests if ({'list'} <= t[1]) != ({'tuple'} <= t[1]) or any('cast' in n or 'type(' in n for n in t[1])]
+    ctx.tri(bool(tests) and not partial, bool(partial), 'SIB',
+            'flatten treats nested lists and tuples alike (every isinstance test names both)',
+            detail_bad=f"`{norm(partial[0][0]) if partial else ''}` unpacks only some container types: a list of "
+                       f"(flag, context) tuples stays nested and is written as tuple reprs",
+            key="SIB|flatten|types", where=common.loc(fl0, partial[0][0]) if partial else None)
     fl = ctx.repo.func('utils:flatten')
     t = ' '.join(norm(s) for s in walk_local(fl.node) if isinstance(s, ast.stmt))
-    ctx.check('while any((isinstance(e, (list, tuple)) for e in list_or_tuple))' in t
+    ctx.shape('while any((isinstance(e, (list, tuple)) for e in list_or_tuple))' in t
               and 'unpacked.extend(element)' in t and 'unpacked.append(element)' in t, 'SIB',
-              'flatten unpacks nested lists/tuples until none is left, keeping every leaf',
-              detail_bad="flatten changed", key="SIB|flatten")
+              'flatten unpacks nested lists/tuples until none is left, keeping every leaf')
 
 
 def _writers(ctx):
     csvf = ctx.repo.func('TractList.tracts_to_csv')
     t = ' '.join(norm(s) for s in walk_local(csvf.node) if isinstance(s, ast.stmt))
-    ctx.check("headers = True" in t and "if fp.exists() and mode == 'a'" in t and 'headers = False' in t
+    ctx.shape("headers = True" in t and "if fp.exists() and mode == 'a'" in t and 'headers = False' in t
               and 'if headers' in t and 'writer.writerow(header_row)' in t, 'SIB',
-              "tracts_to_csv: header unless the file exists and mode is 'a'",
-              detail_bad="header condition changed", key="SIB|tracts_to_csv|header")
+              "tracts_to_csv: header unless the file exists and mode is 'a'")
+    cfg_c, _ = flow.analyse(csvf.node)
+    ex_c = [enclosing_stmt(n) for n in walk_local(csvf.node) if isinstance(n, ast.Call) and norm(n.func) == 'fp.exists']
+    withs = [n for n in csvf.node.body if isinstance(n, ast.With)]
+    if ex_c and withs:
+        inside = any(w is p_ for w in withs for p_ in _anc19(ex_c[0]))
+        ctx.tri(not inside, inside, 'SIB', "tracts_to_csv decides about the header before the file is opened (created)",
+                detail_bad="the existence test runs inside `with open(...)`: in mode 'a' on a new file the header row is omitted",
+                key="SIB|tracts_to_csv|header-before-open")
     loops = [n for n in walk_local(csvf.node) if isinstance(n, ast.For) and norm(n.iter) == 'self']
     ok = len(loops) == 1 and [norm(s) for s in loops[0].body] == [
         'row = tract.to_list(attributes)', 'row = scrub_row(row)', 'writer.writerow(row)']
-    ctx.check(ok, 'SIB', 'tracts_to_csv: exactly one scrubbed row per tract, in order',
-              detail_bad=f"row loop is {[norm(s) for s in loops[0].body] if loops else None}",
-              key="SIB|tracts_to_csv|rows")
-    ctx.check("open(fp, mode=mode, newline='')" in t, 'SIB', "tracts_to_csv opens the file with newline=''",
-              detail_bad="open() arguments changed", key="SIB|tracts_to_csv|open")
+    ctx.shape(ok, 'SIB', 'tracts_to_csv: exactly one scrubbed row per tract, in order')
+    ctx.shape("open(fp, mode=mode, newline='')" in t, 'SIB', "tracts_to_csv opens the file with newline=''")
     init = ctx.repo.func('TractWriter.__init__')
     t = ' '.join(norm(s) for s in walk_local(init.node) if isinstance(s, ast.stmt))
-    ctx.check('write_headers = True' in t and "if self.fp.exists() and mode == 'a'" in t
+    ctx.shape('write_headers = True' in t and "if self.fp.exists() and mode == 'a'" in t
               and 'write_headers = False' in t and 'if write_headers' in t and 'self.write_headers()' in t,
-              'SIB', "TractWriter: header unless the file exists and mode is 'a'",
-              detail_bad="header condition changed", key="SIB|TractWriter|header")
+              'SIB', "TractWriter: header unless the file exists and mode is 'a'")
     # the existence test must precede open() (open creates the file)
     cfg, _ = flow.analyse(init.node)
     ex = [n for n in init.node.body if isinstance(n, ast.If) and 'self.fp.exists()' in norm(n.test)]
     op = [n for n in init.node.body if isinstance(n, ast.Expr) and norm(n) == 'self.open()']
-    ctx.check(bool(ex) and bool(op) and cfg.precedes_always(ex[0], op[0]), 'SIB',
-              'TractWriter decides about the header before opening (creating) the file',
-              detail_bad="the existence test runs after open(): a new file never gets a header",
-              key="SIB|TractWriter|header-before-open")
+    exs = [enclosing_stmt(n) for n in walk_local(init.node) if isinstance(n, ast.Call) and norm(n.func) == 'self.fp.exists']
+    exs = [e for e in exs if e is not None]
+    def top(st):
+        while st is not None and st._parent is not init.node:
+            st = st._parent
+        return st
+    if exs and op:
+        a_, b_ = top(exs[0]), op[0]
+        ctx.tri(cfg.precedes_always(a_, b_), cfg.precedes_always(b_, a_), 'SIB',
+                'TractWriter decides about the header before opening (creating) the file',
+                detail_bad="the existence test runs after open(): a new file never gets a header",
+                key="SIB|TractWriter|header-before-open")
+    else:
+        ctx.undecided('SIB', 'TractWriter decides about the header before opening the file', 'anchors not recognised')
+    # a re-opened writer appends: open() switches the stored mode to 'a'
+    opn = ctx.repo.func('TractWriter.open')
+    uses_attr = any(isinstance(c, ast.Call) and dotted(c.func) == 'open' and 'self.mode' in flow.prov_attrs(
+        flow.provenance(opn.node, next((k.value for k in c.keywords if k.arg == 'mode'), c.args[1] if len(c.args) > 1 else c)))
+        for c in walk_local(opn.node) if isinstance(c, ast.Call) and dotted(c.func) == 'open')
+    tw_cls = ctx.repo.cls('tractwriter:TractWriter')
+    mode_stores = [n for m_ in tw_cls.methods.values() if m_.node.name != '__init__' for n in walk_local(m_.node)
+                   if isinstance(n, ast.Attribute) and isinstance(n.ctx, ast.Store) and norm(n) == 'self.mode']
+    ctx.tri(bool(mode_stores), uses_attr and not mode_stores, 'SIB',
+            "a TractWriter that is closed and re-opened appends (open() stores mode 'a')",
+            detail_bad="open() opens the file with self.mode but never switches self.mode to 'a': re-opening a writer created "
+                       "with 'w' truncates the file (header and earlier rows are lost)",
+            key="SIB|TractWriter.open|append-after-open", where=opn.loc)
     w = ctx.repo.func('TractWriter.write')
     loops = [n for n in walk_local(w.node) if isinstance(n, ast.For) and norm(n.iter) == 'tl']
     ok = len(loops) == 1
@@ -185,11 +223,17 @@ def _writers(ctx):
         ok = body[0] == 'row = tract.to_list(self.attributes)' and 'row = TractWriter._scrub_row(row)' in body \
             and body.count('self.writer.writerow(row)') == 1 and 'written += 1' in body \
             and body.index('row = TractWriter._scrub_row(row)') < body.index('self.writer.writerow(row)')
-    ctx.check(ok, 'SIB', 'TractWriter.write: exactly one scrubbed row per tract, in order',
-              detail_bad="row loop changed", key="SIB|TractWriter.write|rows")
+    ctx.shape(ok, 'SIB', 'TractWriter.write: exactly one scrubbed row per tract, in order')
     t = ' '.join(norm(s) for s in walk_local(w.node) if isinstance(s, ast.stmt))
-    ctx.check('tl = TractList.from_multiple(to_write)' in t, 'SIB', 'TractWriter.write accepts anything TractList.from_multiple does',
-              detail_bad="input handling changed", key="SIB|TractWriter.write|input")
+    ctx.shape('tl = TractList.from_multiple(to_write)' in t, 'SIB', 'TractWriter.write accepts anything TractList.from_multiple does')
+
+
+def _anc19(n):
+    from ..srcmodel import parent
+    p = parent(n)
+    while p is not None:
+        yield p
+        p = parent(p)
 
 
 def _headers(ctx):
@@ -206,14 +250,12 @@ def _headers(ctx):
                       f"row has extra 'n/a' cells and is wider than the header",
                       key="ESCAPE|Tract.get_headers|extend", where=common.loc(gh, c))
     t = ' '.join(norm(s) for s in walk_local(gh.node) if isinstance(s, ast.stmt))
-    ctx.check('Tract.ATTRIBUTES.get(att, att)' in t and 'nice_headers.get(att, att)' in t, 'TBL',
-              'get_headers falls back to the attribute name for unknown attributes',
-              detail_bad="header fallback changed", key="TBL|get_headers|fallback")
+    ctx.shape('Tract.ATTRIBUTES.get(att, att)' in t and 'nice_headers.get(att, att)' in t, 'TBL',
+              'get_headers falls back to the attribute name for unknown attributes')
     wh = ctx.repo.func('TractWriter.write_headers')
     t = ' '.join(norm(s) for s in walk_local(wh.node) if isinstance(s, ast.stmt))
-    ctx.check('Tract.get_headers(self.attributes, self.nice_headers, self.plus_cols)' in t
-              and 'self.writer.writerow(header_row)' in t, 'TBL', 'TractWriter.write_headers writes one header row',
-              detail_bad="write_headers changed", key="TBL|TractWriter.write_headers")
+    ctx.shape('Tract.get_headers(self.attributes, self.nice_headers, self.plus_cols)' in t
+              and 'self.writer.writerow(header_row)' in t, 'TBL', 'TractWriter.write_headers writes one header row')
     # nobody mutates self.attributes of the writer
     tw = ctx.repo.cls('tractwriter:TractWriter')
     for m in tw.methods.values():
